@@ -1203,6 +1203,8 @@ func signCase(r *Rng, kp *keyPair, td tdef, idx int) {
 			emitN = 3
 		}
 		sigLenCase(r, kp, g, sf, rs, emitN)
+		// the TEXT of the field altered: not base64 any more, or base64 of other octets (keys_siglen.go (c))
+		sigTextCase(r, kp, g, sf, rs)
 	}
 	{ // DNSKEY: zone flag, protocol, other flag bits, public key bit (with and without matching key tag)
 		k2 := dns.Copy(kp.k).(*dns.DNSKEY)
